@@ -2,7 +2,6 @@ package main
 
 import "fmt"
 
-func cmdCheck(args []string) int  { return 2 }
 func cmdMutate(args []string) int { return 2 }
 
 func cmdEffects(args []string) {
